@@ -178,6 +178,8 @@ def _input(draw, labelled, max_obj, max_sp, max_fam, polytomy=False, coherent=Tr
         spec["inf_as"] = "infinity"
     if draw(st.integers(0, 4)) == 0:
         spec["cost_float"] = True
+    if draw(st.integers(0, 2)) == 0:
+        spec["own_costs"] = True
     if pool is UNDERSCORE_SPECIES:
         names = list(pool[:nsp])
         intended = {leaf: next(sp for sp in sorted(names, key=len, reverse=True)
@@ -478,6 +480,14 @@ class Slot:
     def __init__(self, spec):
         self.spec = spec
         self.obj = build_input(spec)
+        self.caller_costs = self.obj.costs
+        if spec.get("own_costs"):
+            # the caller builds the input through the constructor with a cost mapping of its
+            # own, which it keeps (and may re-price later: `recost` goes through that mapping)
+            import dataclasses
+
+            self.caller_costs = dict(self.obj.costs)
+            self.obj = dataclasses.replace(self.obj, costs=self.caller_costs)
         self.binary = ref.is_binary(spec["object"]) and ref.is_binary(spec["species"])
         self.results = {}  # (algo, policy) -> list of (order, cost, keys)
         self.last_outs = []
@@ -932,7 +942,7 @@ def do_recost(run, slots, op, idx):
     event = {"spe": model.NodeEvent.SPECIATION, "dup": model.NodeEvent.DUPLICATION,
              "hgt": model.NodeEvent.HORIZONTAL_TRANSFER, "floss": model.EdgeEvent.FULL_LOSS,
              "sloss": model.EdgeEvent.SEGMENTAL_LOSS}[which]
-    slot.obj.costs[event] = float("inf") if value == "inf" else value
+    slot.caller_costs[event] = float("inf") if value == "inf" else value
     slot.spec = dict(slot.spec, costs=new_costs)
     slot.results = {}   # earlier results belong to the old costs
     slot._ref = {}
